@@ -499,3 +499,118 @@ Lemma fourier_transform_facts a b y : ~ b - a == 0 ->
 Proof.
   intros N. unfold fourier_canon, fourier_jac, canon. split; [field; exact N|]. split; field; exact N.
 Qed.
+
+(* ------------------------------------------------------------------------------------------------------------ *)
+(* 8. from the Taylor identity to the epsilon-delta derivative (over Q): a remainder that is bounded for |h| <= 1 makes
+      f' THE derivative of f at x *)
+
+Lemma bdd_const c : bdd (fun _ => c).
+Proof. exists (Qabs c). split; [apply Qabs_nonneg|]. intros. apply Qle_refl. Qed.
+
+Lemma bdd_id : bdd (fun h => h).
+Proof. exists 1. split; [lra|]. intros h H. exact H. Qed.
+
+Lemma bdd_ext g1 g2 : (forall h, g1 h == g2 h) -> bdd g1 -> bdd g2.
+Proof. intros E [B [HB H]]. exists B. split; [exact HB|]. intros h Hh. rewrite <- (E h). apply H. exact Hh. Qed.
+
+Lemma bdd_add g1 g2 : bdd g1 -> bdd g2 -> bdd (fun h => g1 h + g2 h).
+Proof.
+  intros [B1 [P1 H1]] [B2 [P2 H2]]. exists (B1 + B2). split; [lra|]. intros h Hh.
+  eapply Qle_trans; [apply Qabs_triangle|]. specialize (H1 h Hh). specialize (H2 h Hh). lra.
+Qed.
+
+Lemma bdd_mul g1 g2 : bdd g1 -> bdd g2 -> bdd (fun h => g1 h * g2 h).
+Proof.
+  intros [B1 [P1 H1]] [B2 [P2 H2]]. exists (B1 * B2). split; [apply Qmult_le_0_compat; assumption|]. intros h Hh.
+  rewrite Qabs_Qmult. specialize (H1 h Hh). specialize (H2 h Hh).
+  pose proof (Qabs_nonneg (g1 h)). pose proof (Qabs_nonneg (g2 h)).
+  eapply Qle_trans; [apply Qmult_le_compat_r; [exact H1|assumption]|].
+  rewrite (Qmult_comm B1 (Qabs (g2 h))), (Qmult_comm B1 B2). apply Qmult_le_compat_r; assumption.
+Qed.
+
+Lemma bdd_rprodl x ns : bdd (fun h => rprodl x h ns).
+Proof.
+  induction ns as [|n r IH]; cbn [rprodl]; [apply bdd_const|].
+  apply bdd_add; [apply bdd_add; [apply bdd_mul; [apply bdd_const|exact IH]|apply bdd_const]|apply bdd_mul; [apply bdd_id|exact IH]].
+Qed.
+
+Lemma bdd_rem_power_nodes ns x : bdd (rem_power_nodes ns x).
+Proof.
+  pose proof (bdd_rprodl x ns) as R.
+  apply (bdd_ext (fun h => lagc ns * (((1 - x) * (1 + x) * rprodl x h ns + (- (2 * x * dprodl x ns) + - prodl x ns))
+                                   + (- h * (2 * x * rprodl x h ns + dprodl x ns) + - (h * h) * rprodl x h ns)))).
+  { intros h. unfold rem_power_nodes. ring. }
+  apply bdd_mul; [apply bdd_const|]. apply bdd_add.
+  - apply bdd_add; [apply bdd_mul; [apply bdd_const|exact R]|apply bdd_const].
+  - apply bdd_add.
+    + apply bdd_mul.
+      * apply (bdd_ext (fun h => (-1) * h)); [intros; ring|]. apply bdd_mul; [apply bdd_const|apply bdd_id].
+      * apply bdd_add; [apply bdd_mul; [apply bdd_const|exact R]|apply bdd_const].
+    + apply bdd_mul; [|exact R].
+      apply (bdd_ext (fun h => (-1) * (h * h))); [intros; ring|]. apply bdd_mul; [apply bdd_const|apply bdd_mul; apply bdd_id].
+Qed.
+
+Lemma bdd_rem_cubic_generic p x : bdd (rem_cubic_generic p x).
+Proof.
+  unfold rem_cubic_generic. destruct (Z.rem p 2 =? 0)%Z;
+    (apply bdd_add; [apply bdd_const|apply bdd_mul; [apply bdd_id|apply bdd_const]]).
+Qed.
+
+Lemma bdd_rem_cubic r p x : bdd (rem_cubic r p x).
+Proof.
+  destruct r; unfold rem_cubic; repeat match goal with |- context [if ?c then _ else _] => destruct c end;
+    try apply bdd_rem_cubic_generic; apply bdd_const.
+Qed.
+
+Lemma bdd_rem_scaled r o p x : bdd (rem_scaled r o p x).
+Proof.
+  unfold rem_scaled. destruct (o =? 1)%Z; [apply bdd_const|].
+  destruct (o =? 2)%Z.
+  { destruct r; unfold rem_quadratic; repeat match goal with |- context [if ?c then _ else _] => destruct c end; apply bdd_const. }
+  destruct (o =? 3)%Z; [apply bdd_rem_cubic|].
+  unfold rem_power. destruct (uses_cubic r p); [apply bdd_rem_cubic|apply bdd_rem_power_nodes].
+Qed.
+
+(* generic: Taylor identity + remainder bounded near 0  ==>  epsilon-delta derivative *)
+Theorem taylor_is_derivative (f : Q -> Q) (x f' : Q) (rem : Q -> Q) :
+  bdd rem -> (forall h, f (x + h) == f x + h * f' + h * h * rem h) ->
+  forall eps, 0 < eps -> exists delta, 0 < delta /\
+    forall h, Qabs h < delta -> Qabs (f (x + h) - f x - h * f') <= eps * Qabs h.
+Proof.
+  intros [B [HB Hrem]] T eps He.
+  assert (HB1 : 0 < B + 1) by lra.
+  set (d0 := eps / (B + 1)).
+  assert (Hd0 : 0 < d0) by (unfold d0; apply Qlt_shift_div_l; lra).
+  set (delta := if Qlt_le_dec d0 1 then d0 else 1).
+  assert (Hdpos : 0 < delta) by (unfold delta; destruct (Qlt_le_dec d0 1); lra).
+  assert (Hd1 : delta <= 1) by (unfold delta; destruct (Qlt_le_dec d0 1); lra).
+  assert (Hd2 : delta <= d0) by (unfold delta; destruct (Qlt_le_dec d0 1); lra).
+  exists delta. split; [exact Hdpos|]. intros h Hh.
+  assert (E : f (x + h) - f x - h * f' == h * (h * rem h)) by (rewrite T; ring).
+  rewrite E, Qabs_Qmult, Qabs_Qmult.
+  pose proof (Qabs_nonneg h) as A0. pose proof (Qabs_nonneg (rem h)) as A1.
+  assert (Hr : Qabs (rem h) <= B) by (apply Hrem; lra).
+  assert (K : Qabs h * Qabs (rem h) <= eps).
+  { assert (K1 : Qabs h * Qabs (rem h) <= d0 * B).
+    { eapply Qle_trans; [apply Qmult_le_compat_r; [apply Qlt_le_weak; eapply Qlt_le_trans; [exact Hh|exact Hd2]|exact A1]|].
+      rewrite (Qmult_comm d0 (Qabs (rem h))), (Qmult_comm d0 B). apply Qmult_le_compat_r; [exact Hr|lra]. }
+    assert (K2 : d0 * B <= eps).
+    { unfold d0. assert (E2 : eps / (B + 1) * B == eps * (B / (B + 1))) by (field; lra). rewrite E2.
+      assert (B / (B + 1) <= 1) by (apply Qle_shift_div_r; lra).
+      rewrite <- (Qmult_1_r eps) at 2. rewrite (Qmult_comm eps (B / (B + 1))), (Qmult_comm eps 1).
+      apply Qmult_le_compat_r; lra. }
+    lra. }
+  rewrite (Qmult_comm (Qabs h) (Qabs h * Qabs (rem h))). apply Qmult_le_compat_r; assumption.
+Qed.
+
+(* every piece of order <> 1, in the scaled coordinate: diff_scaled IS the derivative of eval_scaled at every point *)
+Theorem scaled_is_derivative r o p xn : o <> 1%Z ->
+  ((o <> 1 /\ o <> 2 /\ o <> 3)%Z -> power_ok r o p) ->
+  forall eps, 0 < eps -> exists delta, 0 < delta /\
+    forall k, Qabs k < delta ->
+      Qabs (eval_scaled r o p (xn + k) - eval_scaled r o p xn - k * diff_scaled r o p xn 1) <= eps * Qabs k.
+Proof.
+  intros Ho HP. apply (taylor_is_derivative (eval_scaled r o p) xn (diff_scaled r o p xn 1) (rem_scaled r o p xn)).
+  - apply bdd_rem_scaled.
+  - intros k. apply scaled_taylor; [intros; contradiction|exact HP].
+Qed.
